@@ -763,7 +763,12 @@ func (c *updater) buildBackendOAuth(d *backData) {
 }
 
 func (c *updater) findBackend(namespace, uriPrefix string) *hatypes.HostBackend {
-	for _, host := range c.haproxy.Hosts().Items() {
+	// predictable result: hosts are visited in the order of their hostnames
+	hosts := c.haproxy.Hosts().BuildSortedItems()
+	if defaultHost := c.haproxy.Hosts().DefaultHost(); defaultHost != nil {
+		hosts = append(hosts, defaultHost)
+	}
+	for _, host := range hosts {
 		for _, path := range host.Paths {
 			if strings.TrimRight(path.Path(), "/") == uriPrefix && path.Backend.Namespace == namespace {
 				return &path.Backend
